@@ -5,7 +5,7 @@ from vlib import env
 
 ID = "C15"
 LEVEL = "exploration"
-RULE = ("each case is a seeded write history (0..40 writes) on one CooMatrix of random shape (0..12 per axis); values are "
+RULE = ("family 'system': the dense shadow (vlib/cooshadow.py) rides along on the assembly of random real systems (all system-level matrices at two states) - the write histories are the ones cardillo itself produces; otherwise each case is a seeded write history (0..40 writes) on one CooMatrix of random shape (0..12 per axis); values are "
         "0-d/1-d/2-d ndarrays (float and int), csr/csc/coo_array (with duplicates and explicit zeros), nested CooMatrix "
         "(possibly empty) and None; keys are int, list, ndarray, range, slices with steps, with repeated and overlapping "
         "indices; 30% of histories end with a deliberately inconsistent block shape that must be rejected at write time. "
@@ -15,7 +15,7 @@ RULE = ("each case is a seeded write history (0..40 writes) on one CooMatrix of 
 ASSUMPTIONS = ["1-d values follow numpy.atleast_2d (row vector); out-of-range/negative indices are outside the stated input kinds and not generated",
                "equality up to summation-order rounding: (n+2)*eps*sum|entries| per cell with n summands",
                "the history stops at a rejected write (container state after a rejected write is unspecified)"]
-REQUIRED_MONITORS = ["conversion.compare", "reject.expected", "write.accepted"]
+REQUIRED_MONITORS = ["conversion.compare", "reject.expected", "write.accepted", "ambient.write", "ambient.conversion"]
 
 META = {
     "level_text": "Exploration: random write histories on the real CooMatrix with a dense shadow (+=) as executable model; every supported conversion is compared with the shadow after every write; inconsistent block shapes must raise at write time. Held on the histories generated.",
@@ -28,7 +28,8 @@ CONVS = ["toarray", "tocoo", "tocsr", "tocsc", "asformat:coo", "asformat:csr", "
 
 def cases(tier, seed):
     n = {"quick": 1600, "thorough": 60000}[tier]
-    return [{"batch": 4} for _ in range(n // 4)]
+    m = {"quick": 40, "thorough": 1200}[tier]
+    return [{"batch": 4} for _ in range(n // 4)] + [{"family": "system"} for _ in range(m)]
 
 
 def _key(rng, n):
@@ -135,8 +136,51 @@ def _convert(coo, how):
     return (out.toarray() if hasattr(out, "toarray") else np.asarray(out)), fmt
 
 
+def run_system(spec, ctx):
+    """the shadow rides along on the real assembly of a random system: the write histories are the ones cardillo itself
+    produces (DOF index arrays of contributions that share coordinates, nested containers, scipy blocks, None)"""
+    from vlib import cooshadow, gen
+    from vlib.props import c14
+    cooshadow.install()
+    before = cooshadow.snapshot()
+    rng = ctx.rng
+    with gen.quiet():
+        system, comp = c14._build_random_system(rng, ctx)
+        try:
+            system.assemble(options=gen.no_cic_options())
+        except Exception as e:
+            ctx.undecided(f"assemble: {type(e).__name__}")       # C14's subject
+            ctx.sig(["system", comp], nontrivial=False)
+            return
+        for k in range(2):
+            t = system.t0 + float(rng.normal())
+            q, u, ud, _ = gen.random_system_state(rng, system, perturb=0.3)
+            lam = {"la_g": rng.normal(size=system.nla_g), "la_c": rng.normal(size=system.nla_c), "la_N": rng.normal(size=system.nla_N), "la_F": rng.normal(size=system.nla_F)}
+            try:
+                c14._evaluate_all(system, t, q, u, ud, lam)
+            except Exception as e:
+                ctx.undecided(f"evaluation: {type(e).__name__}")
+                break
+    after = cooshadow.snapshot()
+    d = {k: after[k] - before.get(k, 0) for k in after}
+    ctx.mon("ambient.write", d["writes"])
+    ctx.mon("ambient.conversion", d["conversions"])
+    ctx.count("ambient_nested_writes", d["nested_writes"]); ctx.count("ambient_sparse_writes", d["sparse_writes"]); ctx.count("ambient_none_writes", d["none_writes"])
+    ctx.count("ambient_untracked_containers", d["untracked"])
+    for m in cooshadow.STATE["mismatch"]:
+        ctx.violation("CooMatrix.tosparse", "conversion during the assembly of a real system differs from the dense sum of all written blocks", {**m, "composition": comp})
+    for m in cooshadow.STATE["accepted_inconsistent"]:
+        ctx.violation("CooMatrix.__setitem__", "write with inconsistent block shape was accepted during the assembly of a real system", {**m, "composition": comp})
+    cooshadow.STATE["mismatch"].clear(); cooshadow.STATE["accepted_inconsistent"].clear()
+    ctx.cls("family:system")
+    ctx.sig(["system", comp, d["writes"]], nontrivial=d["writes"] >= 2 and d["conversions"] >= 1)
+    ctx.sample({"family": "system", "composition": comp, **d})
+
+
 def run_case(spec, ctx):
     env.import_cardillo()
+    if spec.get("family") == "system":
+        return run_system(spec, ctx)
     from cardillo.utility.coo_matrix import CooMatrix
     rng = ctx.rng
     sigs = []
